@@ -257,17 +257,22 @@ func verifCorruptExtensionProbe(env *verifEnv, res *verifResult, keys *verifKeys
 	return malformedCases
 }
 
+var c11Identities = []string{"svc-automation", "Deploy-Bot", "deploy-bot", "SVC.Upper_Case-1"}
+
 func TestVerif_C11(t *testing.T) {
 	verifWriteConsts(t)
-	res := newVerifResult("prefix lengths 0..32 x 3 base addresses x 13 peers (network, broadcast, one below/above, first host, random inside, random, IPv4-mapped inside/outside, IPv6, garbage) minted through POST /v1/getRoleRequestingCert and checked with VerifyIPRestrictedX509CertIP, ExtractIPNets and POST /v1/refreshRoleRequestingCert; multi-block lists; ~70 structurally corrupted extensions in certificates signed by the role CA; non-trivial = peer inside a block or corrupted extension; distinct by (blocks, peer, verdict)")
+	res := newVerifResult("prefix lengths 0..32 x 3 base addresses x 13 peers (network, broadcast, one below/above, first host, random inside, random, IPv4-mapped inside/outside, IPv6, garbage) minted through POST /v1/getRoleRequestingCert (for four automation identities, two differing only in case) and checked with VerifyIPRestrictedX509CertIP, ExtractIPNets and POST /v1/refreshRoleRequestingCert; multi-block lists; ~70 structurally corrupted extensions in certificates signed by the role CA; non-trivial = peer inside a block or corrupted extension; distinct by (blocks, peer, verdict)")
 	env := verifSetup(t, func(c *AppConfigFile, dir string) {
 		c.Base.AllowedAuthBackendsForWebUI = []string{"password"}
 		c.Base.AllowedAuthBackendsForCerts = []string{"U2F"}
-		c.Base.AutomationUsers = []string{"svc-automation"}
+		// identities differing only in case (and one that no normalisation maps onto another
+		// configured name): a refresh must hand back exactly the identity it was given
+		c.Base.AutomationUsers = c11Identities
 		c.Base.AdminUsers = []string{"admin"}
 	})
 	keys := verifNewKeys()
 	rng := verifRand()
+	mintCount := 0
 	adminCookie := env.cookie("admin", AuthTypePassword)
 	roleCA, _ := x509.ParseCertificate(env.state.selfRoleCaCertDer)
 
@@ -276,10 +281,16 @@ func TestVerif_C11(t *testing.T) {
 		for _, b := range blocks {
 			cidrs = append(cidrs, b.cidr())
 		}
-		req := verifNewRequest("POST", getRoleRequestingPath, roleCertForm("svc-automation", cidrs, keys.derPubRU))
+		identity := c11Identities[mintCount%len(c11Identities)]
+		mintCount++
+		req := verifNewRequest("POST", getRoleRequestingPath, roleCertForm(identity, cidrs, keys.derPubRU))
 		req.AddCookie(adminCookie)
 		rr, _ := env.serve(req)
 		c := verifParseCertBody(rr.Body.Bytes())
+		if rr.Code == 200 && c != nil && c.x509 != nil && c.x509.Subject.CommonName != identity {
+			res.hit(verifHit{Key: "C11:mint-identity", Oracle: "minted certificate names another identity than requested",
+				What: fmt.Sprintf("requested %q, certificate names %q", identity, c.x509.Subject.CommonName), Case: identity})
+		}
 		if rr.Code != 200 || c == nil || c.x509 == nil {
 			t.Errorf("mint %v failed: %d %s", cidrs, rr.Code, rr.Body.String())
 			return nil
@@ -393,7 +404,7 @@ func TestVerif_C11(t *testing.T) {
 				}
 				if rr.Code == 200 {
 					nc := verifParseCertBody(rr.Body.Bytes())
-					okc := nc != nil && nc.x509 != nil && nc.cn == "svc-automation"
+					okc := nc != nil && nc.x509 != nil && nc.cn == cert.Subject.CommonName
 					if okc {
 						var oldExt, newExt []byte
 						for _, e := range cert.Extensions {
